@@ -194,7 +194,9 @@ def run_task(modname, lemma_name, tier, mode, fkey, known):
             msgs = run_checkables(analyze_function(lem.fn, opts))
         finally:
             zs.uninstall()
-        if dry_fail is not None and not any(m.state.name in ("POST_FAIL", "EXEC_ERR", "POST_ERR") for m in msgs):
+        if dry_fail is not None:
+            # a concrete native run already fails: that is the reproducible counterexample to report (the solver run
+            # was still made; its own counterexample may depend on state accumulated across explored paths)
             # the solver run did not (yet) reach it, but a concrete native run already fails
             out.update(state="POST_FAIL", message="native dry run returned False", args=dry_fail)
         elif not msgs:
